@@ -1,7 +1,7 @@
 (* Prop_C09.v — the property theorems of C09 and nothing else. *)
 From Coq Require Import List NArith ZArith Bool.
 Import ListNotations.
-From Verif Require Import Base.Val C09.Model_C09 C09.Spec_C09 C09.Proofs_C09.
+From Verif Require Import Base.Val C09.Model_C09 C09.Spec_C09 C09.Proofs_C09 C09.Proofs2_C09.
 
 (* every token list the grammar derives is accepted, with the tree the grammar assigns ... *)
 Theorem grammar_accepted : forall c lf toks d, items c lf toks d -> parse c lf toks = Some d.
@@ -50,3 +50,60 @@ Theorem evaluate_preserves_meaning : forall c use d,
   forall S use', sat_all use' S (evaluate c use d) = sat_all use S d.
 Proof. exact evaluate_preserves_meaning_proof. Qed.
 Print Assumptions evaluate_preserves_meaning.
+
+(* ---------------------------------------------------------------- on strings *)
+(* str.split() undoes " ".join() on tokens (non-empty, whitespace-free) *)
+Theorem split_join : forall toks, forallb tok_ok toks = true -> split_ws (join_sp toks) = toks.
+Proof. exact split_join_proof. Qed.
+Print Assumptions split_join.
+
+(* str(DepSet.parse(s)) parses again, to the same tree — stated on the strings themselves *)
+Theorem parse_print_roundtrip_str : forall c lf, lf_good c lf -> lf_tok lf -> arrow_reserved c lf ->
+  forall s d, parse_str c lf s = Some d -> parse_str c lf (print_str d) = Some d.
+Proof. exact roundtrip_str_proof. Qed.
+Print Assumptions parse_print_roundtrip_str.
+
+Theorem roundtrip_str_by_kind : forall kd s d, (2 <= kd)%N ->
+  parse_str (cfg_of kd) (lf_of kd []) s = Some d ->
+  parse_str (cfg_of kd) (lf_of kd []) (print_str d) = Some d.
+Proof. exact roundtrip_str_by_kind_proof. Qed.
+Print Assumptions roundtrip_str_by_kind.
+
+(* ---------------------------------------------------------------- rejection, clause by clause,
+   every configuration (with renames the clauses speak about the structural positions [skel]) *)
+Theorem unbalanced_rejected_all : forall c lf toks,
+  balance 0 (skel c toks) = false \/ dangling c (skel c toks) = true \/ empty_group (skel c toks) = true ->
+  parse c lf toks = None.
+Proof. exact unbalanced_rejected_all_proof. Qed.
+Print Assumptions unbalanced_rejected_all.
+
+(* an operator or a conditional as the last structural token *)
+Theorem dangling_at_end_rejected : forall c lf toks pre k,
+  skel c toks = pre ++ [k] -> classify c k = TGroup -> parse c lf toks = None.
+Proof. exact dangling_at_end_rejected_proof. Qed.
+Print Assumptions dangling_at_end_rejected.
+
+(* "( )" anywhere *)
+Theorem empty_group_rejected : forall c lf t1 t2, renames c = false ->
+  parse c lf (t1 ++ s_open :: s_close :: t2) = None.
+Proof. exact empty_group_rejected_proof. Qed.
+Print Assumptions empty_group_rejected.
+
+(* ---------------------------------------------------------------- evaluation, every configuration *)
+Theorem evaluate_any_config : forall c use d,
+  forallb leaves_wf d = true ->
+  no_cond (evaluate c use d) = true /\
+  (forall S, sat_all use S (evaluate c use d) = sat_all use S d) /\
+  (node_conds c d = false -> evaluate c use d = d) /\
+  (node_conds c d = true \/ existsb has_trans d = false ->
+   forallb cond_free (evaluate c use d) = true /\
+   forall S use', sat_all use' S (evaluate c use d) = sat_all use S d).
+Proof. exact evaluate_any_config_proof. Qed.
+Print Assumptions evaluate_any_config.
+
+(* flag-independence of the result is false exactly in the left-alone case *)
+Theorem evaluate_left_alone_refuted :
+  exists c use use' S d, forallb leaves_wf d = true /\ node_conds c d = false /\
+    sat_all use' S (evaluate c use d) <> sat_all use S d.
+Proof. exact evaluate_left_alone_refuted_proof. Qed.
+Print Assumptions evaluate_left_alone_refuted.
